@@ -83,16 +83,19 @@ class Extractor(object):
                 v = c.cell_contents
             except ValueError:
                 continue
-            if callable(v) and getattr(v, '__module__', None) == self.modname:
+            if callable(v) and str(getattr(v, '__module__', '')).startswith('hszinc.') and hasattr(v, '__code__'):
                 fn = v
         if fn is None:
-            if getattr(wrapper, '__module__', None) == self.modname:
+            if str(getattr(wrapper, '__module__', '')).startswith('hszinc.'):
                 fn = wrapper
             else:
-                raise OutOfGrammarSubset('parse action %r is not a function of %s' % (wrapper, self.modname))
+                raise OutOfGrammarSubset('parse action %r is not a function of the package' % (wrapper,))
         code = fn.__code__
+        src = self.src if fn.__module__ == self.modname else extract.module(fn.__module__)
+        lambdas = self._lambdas if src is self.src else [n for n in ast.walk(src.tree) if isinstance(n, ast.Lambda)]
+        modname = fn.__module__
         if fn.__name__ == '<lambda>':
-            cands = [n for n in self._lambdas if n.lineno == code.co_firstlineno]
+            cands = [n for n in lambdas if n.lineno == code.co_firstlineno]
             if len(cands) > 1:
                 pos = [(p[0], p[2]) for p in code.co_positions() if p[0] is not None and p[2] is not None and not (p[2] == 0 and p[3] == 0)]
                 inside = [n for n in cands if pos and all((n.body.lineno, n.body.col_offset) <= x <= (n.body.end_lineno, n.body.end_col_offset) for x in pos)]
@@ -101,13 +104,15 @@ class Extractor(object):
             if len(cands) != 1:
                 raise OutOfGrammarSubset('cannot locate the source of a lambda at line %d' % code.co_firstlineno)
             node = cands[0]
-            qual = '%s.<lambda@%d:%d>' % (self.modname, node.lineno, node.col_offset)
+            qual = '%s.<lambda@%d:%d>' % (modname, node.lineno, node.col_offset)
         else:
-            node = self.src.functions.get(fn.__name__)
+            node = src.functions.get(fn.__name__)
             if node is None or node.lineno != code.co_firstlineno:
                 raise OutOfGrammarSubset('cannot locate the source of %s' % fn.__name__)
-            qual = '%s.%s' % (self.modname, fn.__name__)
-        return Action(fn, node, qual)
+            qual = '%s.%s' % (modname, fn.__name__)
+        a = Action(fn, node, qual)
+        a.module = modname
+        return a
 
     def node(self, e):
         pp = self.pp
@@ -137,6 +142,12 @@ class Extractor(object):
             g.chars = ''.join(sorted(e.initChars))
         elif T is pp.StringEnd:
             g = GNode('end', e)
+        elif T is pp.Keyword:
+            if e.caseless:
+                raise OutOfGrammarSubset('caseless Keyword')
+            g = GNode('keyword', e)
+            g.text = e.match
+            g.chars = ''.join(sorted(e.identChars))
         elif T in (pp.And, pp.Or, pp.MatchFirst):
             g = GNode({pp.And: 'and', pp.Or: 'or', pp.MatchFirst: 'first'}[T], e)
             self.by_id[id(e)] = g
@@ -166,6 +177,10 @@ class Extractor(object):
             self.nodes.append(g)
         g.name = e.customName
         g.skip_ws = bool(e.skipWhitespace)
+        g.call_pre = bool(getattr(e, 'callPreparse', True))
+        g.white = ''.join(sorted(e.whiteChars)) if g.skip_ws else ''
+        if g.skip_ws and set(e.whiteChars) != set(' \n\t\r'):
+            raise OutOfGrammarSubset('non-default whitespace characters')
         if e.ignoreExprs:
             raise OutOfGrammarSubset('ignore expressions')
         if e.resultsName:
@@ -198,7 +213,9 @@ def describe(g, depth=0, seen=None, out=None, maxdepth=40):
     if g.name:
         bits.append('name=%r' % g.name)
     if g.skip_ws:
-        bits.append('SKIPWS')
+        bits.append('SKIPWS' if getattr(g, 'call_pre', True) else 'SKIPWS(no-preparse)')
+    if g.kind == 'keyword':
+        bits.append('ident=%s' % hashlib.sha256(g.chars.encode()).hexdigest()[:8])
     for a in g.actions:
         bits.append('action=%s#%s' % (a.qual, a.sha))
     out.append('%s%d:%s' % ('  ' * depth, seen[g.uid], ' '.join(bits)))
